@@ -82,13 +82,27 @@ package p2p
 //@   sets lastMasked = msg
 
 // Register / UnRegister: the subscriber table is only touched under the write lock.
+// Who is registered: subscriber x under message type t (an absent bucket is an empty one).
+// Register adds, and UnRegister removes, exactly the named subscriber under its own type;
+// nobody else's registration moves.
+//@ macro registered(d, t, x) = in(d.mc, t) && in(d.mc[t], x)
+// Representation invariant of the table: every message type has its own bucket.
+//@ macro ownBuckets(d) = (forall a int, b int :: a != b && in(d.mc, a) && in(d.mc, b) ==> d.mc[a] != d.mc[b])
 //@ func dispatcher.Register
 //@   property C20
+//@   requires own_buckets: d.mc != nil && ownBuckets(d)
+//@   ensures own_buckets_kept: ownBuckets(d)
+//@   ensures only_the_named_subscriber_joins: forall t2 int, x Subscriber :: (t2 != sub.GetMessageType() || x != sub) ==> registered(d, t2, x) == old(registered(d, t2, x))
+//@   ensures registered_after_success: result == nil ==> registered(d, sub.GetMessageType(), sub)
 //@   at mapread.mc assert table_read_locked: sel(rwHeld, d.mu) >= 1
 //@   at mapwrite.mc assert table_write_locked: sel(rwHeld, d.mu) == 2
 //@   ensures lock_released: sel(rwHeld, d.mu) == 0 || result == ErrSubscriber
 //@ func dispatcher.UnRegister
 //@   property C20
+//@   requires own_buckets: d.mc != nil && ownBuckets(d)
+//@   ensures own_buckets_kept: ownBuckets(d)
+//@   ensures only_the_named_subscriber_leaves: forall t2 int, x Subscriber :: (t2 != sub.GetMessageType() || x != sub) ==> registered(d, t2, x) == old(registered(d, t2, x))
+//@   ensures gone_after_success: result == nil ==> !registered(d, sub.GetMessageType(), sub)
 //@   at mapread.mc assert table_read_locked: sel(rwHeld, d.mu) >= 1
 //@   ensures lock_released: sel(rwHeld, d.mu) == 0 || result == ErrSubscriber
 
